@@ -141,6 +141,9 @@ package iso7816
 // interface, whose implementation (*SecureMessaging) is verified separately against the ICAO message structure.
 // Ghost: status word of the most recent completed exchange of the session (-1 when the exchange failed).
 //@ ghost field NfcSession.lastSW int
+// Ghost: the most recent completed exchange went through the installed secure-messaging session (command wrapped by
+// its Encode, response accepted by its Decode, i.e. MAC verified under the session keys and counter).
+//@ ghost field NfcSession.lastProtected bool
 //@ uf smWrapped(ref) bool
 //@ uf smDecoded(ref) bool
 //@ func (sm SecureMessenger) Encode(cApdu *CApdu) (out *CApdu, err error)
@@ -150,6 +153,8 @@ package iso7816
 //@   ensures err != nil ==> out == nil
 //@   ensures fresh(out)
 //@   defines err == nil ==> smWrapped(out)
+//@   ensures "session-keys-kept": old(typeis(sm, "*iso7816.SecureMessaging") && validSM(as(sm, "*iso7816.SecureMessaging"))) ==> typeis(sm, "*iso7816.SecureMessaging") && validSM(as(sm, "*iso7816.SecureMessaging")) && as(sm, "*iso7816.SecureMessaging").alg == old(as(sm, "*iso7816.SecureMessaging").alg)
+//@        && as(sm, "*iso7816.SecureMessaging").ksEnc === old(as(sm, "*iso7816.SecureMessaging").ksEnc) && as(sm, "*iso7816.SecureMessaging").ksMac === old(as(sm, "*iso7816.SecureMessaging").ksMac)
 //@   assigns content(sm)
 //@ func (sm SecureMessenger) Decode(rApduBytes []byte) (rApdu *RApdu, err error)
 //@   trusted
@@ -158,6 +163,8 @@ package iso7816
 //@   ensures err != nil ==> rApdu == nil
 //@   ensures fresh(rApdu)
 //@   defines err == nil ==> smDecoded(rApdu)
+//@   ensures "session-keys-kept": old(typeis(sm, "*iso7816.SecureMessaging") && validSM(as(sm, "*iso7816.SecureMessaging"))) ==> typeis(sm, "*iso7816.SecureMessaging") && validSM(as(sm, "*iso7816.SecureMessaging")) && as(sm, "*iso7816.SecureMessaging").alg == old(as(sm, "*iso7816.SecureMessaging").alg)
+//@        && as(sm, "*iso7816.SecureMessaging").ksEnc === old(as(sm, "*iso7816.SecureMessaging").ksEnc) && as(sm, "*iso7816.SecureMessaging").ksMac === old(as(sm, "*iso7816.SecureMessaging").ksMac)
 //@   assigns content(sm)
 // The transport is external: any byte string may come back; it does not write to the caller's buffers.
 //@ func (t Transceiver) Transceive
@@ -192,13 +199,17 @@ package iso7816
 //@   ensures err == nil ==> rApdu != nil
 //@   ensures err != nil ==> rApdu == nil
 //@   ensures "only-decoded-responses-while-session-installed": err == nil && old(nfc.sm) != nil ==> smDecoded(rApdu)
+//@   ensures "session-kept": nfc.sm == old(nfc.sm)
+//@   ensures "session-keys-kept": old(typeis(nfc.sm, "*iso7816.SecureMessaging") && validSM(as(nfc.sm, "*iso7816.SecureMessaging"))) ==> typeis(nfc.sm, "*iso7816.SecureMessaging") && validSM(as(nfc.sm, "*iso7816.SecureMessaging")) && as(nfc.sm, "*iso7816.SecureMessaging").alg == old(as(nfc.sm, "*iso7816.SecureMessaging").alg)
+//@        && as(nfc.sm, "*iso7816.SecureMessaging").ksEnc === old(as(nfc.sm, "*iso7816.SecureMessaging").ksEnc) && as(nfc.sm, "*iso7816.SecureMessaging").ksMac === old(as(nfc.sm, "*iso7816.SecureMessaging").ksMac)
 //@   assumes "conforming-chip-read-binary": err == nil && cApdu.cla == 0 && cApdu.ins == 176 && rApdu.Status == 36864 ==>
 //@        cApdu.p1*256 + cApdu.p2 + len(rApdu.Data) <= len(ef(nfc))
 //@        && rApdu.Data === ef(nfc)[cApdu.p1*256 + cApdu.p2 : cApdu.p1*256 + cApdu.p2 + len(rApdu.Data)]
 //@   assumes "chip-said-not-found": err == nil && cApdu.ins == 164 && len(cApdu.data) == 2 && (rApdu.Status == 27266 || rApdu.Status == 25219) ==>
 //@        chipSaidNotFound(nfc, cApdu.data[0]*256 + cApdu.data[1])
 //@   defines setghost(nfc, "lastSW", err == nil ? rApdu.Status : 0 - 1)
-//@   assigns nfc.lastApduLogEntry, content(nfc.apduLog), content(nfc.sm), nfc.lastSW
+//@   defines setghost(nfc, "lastProtected", err == nil && old(nfc.sm) != nil)
+//@   assigns nfc.lastApduLogEntry, content(nfc.apduLog), content(nfc.sm), nfc.lastSW, nfc.lastProtected
 //@   safety all
 
 // ---------------------------------------------------------------- C11: command helpers return data only after SW 9000 and the stated length
@@ -207,7 +218,7 @@ package iso7816
 //@   requires validNfc(nfc) && 0 <= length && length <= 65536
 //@   ensures "data-only-after-9000-with-exact-length": err == nil ==> nfc.lastSW == 36864 && len(out) == length
 //@   ensures err != nil ==> out == nil
-//@   assigns nfc.lastApduLogEntry, content(nfc.apduLog), content(nfc.sm), nfc.lastSW
+//@   assigns nfc.lastApduLogEntry, content(nfc.apduLog), content(nfc.sm), nfc.lastSW, nfc.lastProtected
 //@   safety all
 // iaChallenge(out): ghost attribute of the response buffer of INTERNAL AUTHENTICATE - the command data it answers.
 //@ uf iaChallenge(ref) seq
@@ -219,14 +230,14 @@ package iso7816
 //@   defines err == nil ==> seqid(iaChallenge(ref(out)), data)
 //@   ensures err != nil ==> out == nil
 //@   ensures fresh(out)
-//@   assigns nfc.lastApduLogEntry, content(nfc.apduLog), content(nfc.sm), nfc.lastSW
+//@   assigns nfc.lastApduLogEntry, content(nfc.apduLog), content(nfc.sm), nfc.lastSW, nfc.lastProtected
 //@   safety all
 //@ func (nfc *NfcSession) ExternalAuthenticate
 //@   props C11 C05
 //@   requires validNfc(nfc) && len(data) <= 65535 && 0 <= le && le <= 65536
 //@   ensures "data-only-after-9000-with-exact-length": err == nil ==> nfc.lastSW == 36864 && len(out) == le
 //@   ensures err != nil ==> out == nil
-//@   assigns nfc.lastApduLogEntry, content(nfc.apduLog), content(nfc.sm), nfc.lastSW
+//@   assigns nfc.lastApduLogEntry, content(nfc.apduLog), content(nfc.sm), nfc.lastSW, nfc.lastProtected
 //@   safety all
 //@ func (nfc *NfcSession) GeneralAuthenticate
 //@   props C11 C04 C06
@@ -234,13 +245,13 @@ package iso7816
 //@   ensures "data-only-after-9000": result1 == nil ==> nfc.lastSW == 36864
 //@   ensures result1 != nil ==> result0 == nil
 //@   ensures fresh(result0)
-//@   assigns nfc.lastApduLogEntry, content(nfc.apduLog), content(nfc.sm), nfc.lastSW
+//@   assigns nfc.lastApduLogEntry, content(nfc.apduLog), content(nfc.sm), nfc.lastSW, nfc.lastProtected
 //@   safety all
 //@ func (nfc *NfcSession) MseSetAT
 //@   props C11 C04 C06
 //@   requires validNfc(nfc) && len(data) <= 65535
 //@   ensures "success-only-after-9000": err == nil ==> nfc.lastSW == 36864
-//@   assigns nfc.lastApduLogEntry, content(nfc.apduLog), content(nfc.sm), nfc.lastSW
+//@   assigns nfc.lastApduLogEntry, content(nfc.apduLog), content(nfc.sm), nfc.lastSW, nfc.lastProtected
 //@   safety all
 //@ func (nfc *NfcSession) SelectMF
 //@   props C11
@@ -248,7 +259,7 @@ package iso7816
 //@   ensures "success-only-after-9000": err == nil ==> nfc.lastSW == 36864
 //@   loop 1 invariant validNfc(nfc) && len(variants) == 2
 //@   loop 1 invariant rangeindex >= 0 ==> rapdu != nil && rapdu.Status == nfc.lastSW && rapdu.Status != 36864
-//@   assigns nfc.lastApduLogEntry, content(nfc.apduLog), content(nfc.sm), nfc.lastSW
+//@   assigns nfc.lastApduLogEntry, content(nfc.apduLog), content(nfc.sm), nfc.lastSW, nfc.lastProtected
 //@   safety all
 //@ func (nfc *NfcSession) SelectAid
 //@   props C11
@@ -256,7 +267,7 @@ package iso7816
 //@   ensures "selected-only-after-9000": err == nil && selected ==> nfc.lastSW == 36864
 //@   ensures "not-found-only-on-6A82": err == nil && !selected ==> nfc.lastSW == 27266
 //@   ensures err != nil ==> !selected
-//@   assigns nfc.lastApduLogEntry, content(nfc.apduLog), content(nfc.sm), nfc.lastSW
+//@   assigns nfc.lastApduLogEntry, content(nfc.apduLog), content(nfc.sm), nfc.lastSW, nfc.lastProtected
 //@   safety all
 
 //@ func (apdu *RApdu) IsSuccess
@@ -276,8 +287,13 @@ package iso7816
 //@   props C13 C11
 //@   requires validNfc(nfc)
 //@   ensures "not-found-only-if-chip-says-so": err == nil && !selected ==> chipSaidNotFound(nfc, fileId)
+//@   ensures "selected-only-after-9000": err == nil && selected ==> nfc.lastSW == 36864
+//@   ensures "protected-while-session-installed": err == nil && old(nfc.sm) != nil ==> nfc.lastProtected
+//@   ensures "session-kept": nfc.sm == old(nfc.sm)
+//@   ensures "session-keys-kept": old(typeis(nfc.sm, "*iso7816.SecureMessaging") && validSM(as(nfc.sm, "*iso7816.SecureMessaging"))) ==> typeis(nfc.sm, "*iso7816.SecureMessaging") && validSM(as(nfc.sm, "*iso7816.SecureMessaging")) && as(nfc.sm, "*iso7816.SecureMessaging").alg == old(as(nfc.sm, "*iso7816.SecureMessaging").alg)
+//@        && as(nfc.sm, "*iso7816.SecureMessaging").ksEnc === old(as(nfc.sm, "*iso7816.SecureMessaging").ksEnc) && as(nfc.sm, "*iso7816.SecureMessaging").ksMac === old(as(nfc.sm, "*iso7816.SecureMessaging").ksMac)
 //@   ensures err != nil ==> !selected
-//@   assigns nfc.lastApduLogEntry, content(nfc.apduLog), content(nfc.sm), nfc.lastSW
+//@   assigns nfc.lastApduLogEntry, content(nfc.apduLog), content(nfc.sm), nfc.lastSW, nfc.lastProtected
 //@   safety all
 
 //@ func (nfc *NfcSession) ReadBinaryFromOffset
@@ -286,7 +302,7 @@ package iso7816
 //@   ensures "chunk-is-file-segment": err == nil ==> len(result0) <= length && offset + len(result0) <= len(ef(nfc))
 //@        && 0 <= offset && offset <= 65535 && result0 === ef(nfc)[offset : offset + len(result0)]
 //@   ensures err != nil ==> result0 == nil
-//@   assigns nfc.lastApduLogEntry, content(nfc.apduLog), content(nfc.sm), nfc.lastSW
+//@   assigns nfc.lastApduLogEntry, content(nfc.apduLog), content(nfc.sm), nfc.lastSW, nfc.lastProtected
 //@   safety all
 
 // The fallback table is a package variable; its initial contents are what the read loop relies on.
@@ -298,7 +314,7 @@ package iso7816
 //@        && result0 === ef(nfc)[offset : offset + len(result0)]
 //@   ensures "max-only-decreases": 0 <= result1 && result1 <= maxReadAmount
 //@   loop 1 invariant err != nil
-//@   assigns nfc.lastApduLogEntry, content(nfc.apduLog), content(nfc.sm), nfc.lastSW
+//@   assigns nfc.lastApduLogEntry, content(nfc.apduLog), content(nfc.sm), nfc.lastSW, nfc.lastProtected
 //@   safety all
 
 //@ func (nfc *NfcSession) ReadFile
